@@ -626,28 +626,37 @@ def obs_diff(a, b, cross=False):
     return "; ".join(out[:8])
 
 
-def diff_class(a, b, cross=False):
-    """names (not values) of what differs between two observations: stable violation signature"""
+# keys that are derived from one and the same piece of request state are reported together
+CODERIVED = [("HTTPS", "REQUEST_SCHEME")]          # both come from r->uri.scheme
+
+
+def diff_classes(a, b, cross=False):
+    """one stable signature component per thing that differs between two observations
+    (names, not values): 'status', 'header:<name>', 'env:<NAME>' (co-derived keys joined), 'body'"""
     if a is None or b is None:
-        return "no-response"
-    out = set()
+        return ["no-response"]
+    out = []
     if a["status"] != b["status"]:
-        out.add("status")
+        out.append("status")
     ha = dict((h[0], h[1]) for h in a["headers"] if not (cross and h[0].encode() in DROP_CROSS))
     hb = dict((h[0], h[1]) for h in b["headers"] if not (cross and h[0].encode() in DROP_CROSS))
-    for k in set(ha) | set(hb):
+    for k in sorted(set(ha) | set(hb)):
         if ha.get(k) != hb.get(k):
-            out.add("header:" + k)
+            out.append("header:" + k)
     ba, bb = a["body"], b["body"]
     if isinstance(ba, dict) and isinstance(bb, dict):
-        envd = sorted(k for k in set(ba) | set(bb) if ba.get(k) != bb.get(k) and not (cross and k in ENV_DROP_CROSS))
-        if envd:
-            return "env:" + "+".join(envd[:4])
+        envd = [k for k in sorted(set(ba) | set(bb)) if ba.get(k) != bb.get(k) and not (cross and k in ENV_DROP_CROSS)]
+        for grp in CODERIVED:
+            hit = [k for k in grp if k in envd]
+            if hit:
+                out.append("env:" + "+".join(grp))
+                envd = [k for k in envd if k not in grp]
+        out += ["env:" + k for k in envd]
     elif ba != bb:
-        out.add("body")
+        out.append("body")
     if a["complete"] != b["complete"]:
-        out.add("complete")
-    return "+".join(sorted(out)[:4]) or "same"
+        out.append("complete")
+    return out or ["same"]
 
 
 def h1_obs(resp, srv):
@@ -1117,7 +1126,7 @@ class ResetOracle:
             if b == "bad-op" or a == "bad-op":
                 return None
             if a != b:
-                return "request parsed differently into a recycled request object than into a fresh one (%s)" % t[3]
+                return "request parsed differently into a recycled request object than into a fresh one"
             return None
         if t[0] != "rst" or out in ("skip", "bad-op", "<crash>"):
             return None
@@ -1150,10 +1159,7 @@ class ResetOracle:
                     return "HTTP/2 stream does not inherit %s from the connection request" % k
         bad = sorted(k for k in base if k not in allow and d.get(k) != base[k])
         if bad:
-            return "after %s the request object still carries state of the previous request: %s" % (
-                {"reset": "request_reset()", "conreset": "connection_reset()", "resetex": "request_reset()+request_reset_ex()",
-                 "release": "request_release()/request_acquire()", "h2init": "request_release()/h2_init_stream()"}[op],
-                ",".join(bad))
+            return "after the reset functions the request object still carries state of the previous request: %s" % ",".join(bad[:3])
         return None
 
 
@@ -1334,6 +1340,11 @@ def gen_cases(ctx):
                 cases.append(dict(ver=ver, mode="segmented", hist=[], probe=q, nseg=rng.choice([2, 3, 5, 11])))
             elif q.body is None and (ctx.quick is False or pi % 3 == 0):
                 cases.append(dict(ver=2, mode="h2c-probe", hist=[], probe=q))
+    # every request of the pool once as the only history of the CGI environment probe (keep-alive / later stream)
+    envp = [q for q in PROBES if q.tag == "GET env q"][0]
+    for h in ALL_REQS:
+        cases.append(dict(ver=1, mode="keepalive", hist=[h], probe=envp))
+        cases.append(dict(ver=2, mode="sequential", hist=[h], probe=envp))
     if ctx.quick:
         # the upgrade path for a few fixed probes in every run
         for pi in (1, 25, 13):
@@ -1560,8 +1571,9 @@ def run_e2e(ctx):
                     continue
                 ctx.evaluations += 1
                 ctx.keys["cross:%s:%d" % (hist_kind(q), a["status"])] += 1
-                if obs_key(a, True) != obs_key(b, True):
-                    ctx.violation("e2e:cross-version:%s" % q.tag,
+                if obs_key(a, True) != obs_key(b, True) and ("x:%d%d:" % (va, vb) + "+".join(diff_classes(a, b, True))) not in seen_sig:
+                    seen_sig.add("x:%d%d:" % (va, vb) + "+".join(diff_classes(a, b, True)))
+                    ctx.violation("e2e:cross-version:%d-%d:%s" % (va, vb, "+".join(diff_classes(a, b, True))[:80]),
                                   "the same request is answered differently over %s and %s: %s" % (
                                       ["HTTP/1.0", "HTTP/1.1", "HTTP/2"][va], ["HTTP/1.0", "HTTP/1.1", "HTTP/2"][vb],
                                       obs_diff(a, b, True)),
@@ -1598,13 +1610,16 @@ def run_e2e(ctx):
                                    "log": log, "note": note})
                 continue
             ctx.keys["meta:%d:%s:%s:%d" % (case["ver"], case["mode"], kinds, o["status"])] += 1
-            if ref is not None and obs_key(o) != obs_key(ref) and ("e2e:history:%s" % diff_class(ref, o)) not in seen_sig:
-                seen_sig.add("e2e:history:%s" % diff_class(ref, o))
-                ctx.violation("e2e:history:%s" % diff_class(ref, o),
-                              "response depends on connection history (%s, %s): %s" % (
-                                  ["HTTP/1.0", "HTTP/1.1", "HTTP/2"][case["ver"]], case["mode"], obs_diff(ref, o)),
-                              {"property": ctx.pid, "kind": "e2e-metamorphic", "case": case_desc(case), "log": log,
-                               "diff": obs_diff(ref, o)})
+            if ref is not None and obs_key(o) != obs_key(ref):
+                for dc in diff_classes(ref, o):
+                    sig = "e2e:history:%s" % dc
+                    if sig in seen_sig:
+                        continue
+                    seen_sig.add(sig)
+                    ctx.violation(sig, "response depends on connection history (%s, %s; differs in %s): %s" % (
+                                      ["HTTP/1.0", "HTTP/1.1", "HTTP/2"][case["ver"]], case["mode"], dc, obs_diff(ref, o)),
+                                  {"property": ctx.pid, "kind": "e2e-metamorphic", "case": case_desc(case), "log": log,
+                                   "differs_in": dc, "diff": obs_diff(ref, o)})
             if len(ctx.samples) < 6 and ncase % 97 == 1:
                 ctx.sample({"stream": "e2e-metamorphic", "case": case_desc(case), "status": o["status"]})
     # references must also agree between server processes (first-ever connections included)
